@@ -183,6 +183,148 @@ theorem handover_before_fix_lost_correction_skip :
     corrRuns st = false ∧ corrRuns (handOverBefore88cf1f5 st) = true ∧ corrRuns (handOver st) = false := by
   decide
 
+/-! ### The whole command language against a table of switches, with the running belief
+
+`runOps` is the concrete machine (four flags, dispatch chains, the two tests in `predict` /
+`predictStep`, `LinearStateModel::propagate`, `correct`) carrying the running belief;
+`Spec.runOps` is the specification (three switches, a table).  `Sem` — what the steps compute,
+possibly time-varying — is arbitrary throughout, histories are of any length. -/
+
+variable {β : Type}
+
+/-- **Refinement.**  For every history of filter-level commands, predict / correct calls and
+    hand-overs, from a freshly built filter: flags, running belief and clock of the real state
+    machine are those of the table-driven specification. -/
+theorem skip_history_refines_spec (hasExo : Bool) (sem : Sem β) (k : PredKind) (ops : List SOp) (b : β) (t : Nat) :
+    runOps sem k ⟨SkipState.init hasExo, b, t⟩ (ops.map SOp.toOp)
+      = (Spec.runOps sem k ⟨Spec.init hasExo, b, t⟩ ops).toFilter := by
+  have h := runOps_spec sem k ops ⟨Spec.init hasExo, b, t⟩
+  simpa only [SpecSt.toFilter, init_flags] using h
+
+/-- The table entry is what an observer of `predict` sees, in every specification state. -/
+theorem skip_table_observed (s : Spec) (k : PredKind) :
+    predObs k s.flags = s.predBehaviour k ∧ corrRuns s.flags = !s.corr := by
+  refine ⟨predObs_spec s k, ?_⟩
+  obtain ⟨h, st, e, c⟩ := s
+  cases c <;> rfl
+
+/-- **Commands never touch the belief**: a history without predict / correct calls — commands at
+    any of the five levels (throwing or not), hand-overs, attachments — leaves belief and clock as they were. -/
+theorem skip_commands_keep_belief (sem : Sem β) (k : PredKind) (s : FilterSt β) (ops : List Op)
+    (h : ∀ o ∈ ops, o.isStep = false) :
+    (runOps sem k s ops).belief = s.belief ∧ (runOps sem k s ops).clock = s.clock :=
+  runOps_no_step sem k ops s h
+
+/-- **Identity lifted to histories.**  After any history `h` that leaves prediction and
+    correction skipped, every continuation in which no command switches anything off — any number
+    of predict / correct calls, hand-overs, further 'on' commands, unknown names — ends with the
+    belief it started from, whatever the steps would have computed. -/
+theorem skip_history_identity (hasExo : Bool) (sem : Sem β) (k : PredKind) (h ops : List SOp) (b : β) (t : Nat)
+    (hp : (Spec.runOps sem k ⟨Spec.init hasExo, b, t⟩ h).spec.predSkipped = true)
+    (hc : (Spec.runOps sem k ⟨Spec.init hasExo, b, t⟩ h).spec.corr = true)
+    (hon : ∀ o ∈ ops, o.onOnly) :
+    (runOps sem k ⟨SkipState.init hasExo, b, t⟩ ((h ++ ops).map SOp.toOp)).belief
+      = (runOps sem k ⟨SkipState.init hasExo, b, t⟩ (h.map SOp.toOp)).belief := by
+  rw [skip_history_refines_spec, skip_history_refines_spec, specRunOps_append]
+  exact specRunOps_all_skipped sem k ops _ hp hc hon
+
+/-- **Restore lifted to histories.**  After any history at whose end nothing is switched on,
+    every continuation runs exactly as on a filter that was never given a skip command and is
+    started from the belief and time reached. -/
+theorem skip_history_restore (hasExo : Bool) (sem : Sem β) (k : PredKind) (h : List SOp) (ops : List Op) (b : β) (t : Nat)
+    (hs : (Spec.runOps sem k ⟨Spec.init hasExo, b, t⟩ h).spec.state = false)
+    (he : hasExo = true → (Spec.runOps sem k ⟨Spec.init hasExo, b, t⟩ h).spec.exo = false)
+    (hc : (Spec.runOps sem k ⟨Spec.init hasExo, b, t⟩ h).spec.corr = false) :
+    runOps sem k ⟨SkipState.init hasExo, b, t⟩ (h.map SOp.toOp ++ ops)
+      = runOps sem k ⟨SkipState.init hasExo,
+                      (Spec.runOps sem k ⟨Spec.init hasExo, b, t⟩ h).belief,
+                      (Spec.runOps sem k ⟨Spec.init hasExo, b, t⟩ h).clock⟩ ops := by
+  rw [runOps_append, skip_history_refines_spec]
+  have hx : (Spec.runOps sem k ⟨Spec.init hasExo, b, t⟩ h).spec.hasExo = hasExo := by
+    rw [specRunOps_hasExo]; cases hasExo <;> rfl
+  generalize Spec.runOps sem k ⟨Spec.init hasExo, b, t⟩ h = r at *
+  obtain ⟨⟨x, st, e, c⟩, bb, tt⟩ := r
+  simp only at hs he hc hx
+  subst hs hc hx
+  have hfl : (Spec.flags ⟨x, false, e, false⟩) = SkipState.init x := by
+    cases x
+    · cases e <;> decide
+    · simp only [he rfl]; decide
+  simp only [SpecSt.toFilter, hfl]
+
+/-- **Reversibility.**  A block of commands that nets to nothing in the table (`Spec.run`
+    returns the state it started from) may be inserted anywhere in a history: flags, belief and
+    clock at the end are the same as without it. -/
+theorem skip_net_nothing (hasExo : Bool) (sem : Sem β) (k : PredKind) (h₁ h₂ : List SOp) (cs : List (StepName × Bool))
+    (b : β) (t : Nat)
+    (hnet : (Spec.runOps sem k ⟨Spec.init hasExo, b, t⟩ h₁).spec.run cs = (Spec.runOps sem k ⟨Spec.init hasExo, b, t⟩ h₁).spec) :
+    runOps sem k ⟨SkipState.init hasExo, b, t⟩ ((h₁ ++ cmdBlock cs ++ h₂).map SOp.toOp)
+      = runOps sem k ⟨SkipState.init hasExo, b, t⟩ ((h₁ ++ h₂).map SOp.toOp) := by
+  rw [skip_history_refines_spec, skip_history_refines_spec, specRunOps_append, specRunOps_append,
+    specRunOps_append, specRunOps_cmdBlock, hnet]
+
+/-- The last command with a given name wins, in every table state; hence `on` followed by `off`
+    is `off`, and `off` changes nothing where the switches it names are off. -/
+theorem skip_last_command_wins (s : Spec) (n : StepName) (b b' : Bool) :
+    ((s.apply n b').apply n b = s.apply n b) ∧
+    (s.state = false → (s.hasExo = true → s.exo = false) → s.corr = false →
+      ((s.apply n true).apply n false).flags = s.flags) := by
+  obtain ⟨h, st, e, c⟩ := s
+  constructor
+  · cases n <;> cases h <;> rfl
+  · intro hs he hc
+    simp only at hs he hc
+    subst hs hc
+    cases h
+    · cases n <;> cases e <;> decide
+    · simp only [he rfl]; cases n <;> decide
+
+/-- `on`/`off` pairs of any one name on a never-skipped filter net to nothing (instances of `skip_net_nothing`). -/
+theorem skip_on_off_nets_nothing (hasExo : Bool) (n : StepName) :
+    run (SkipState.init hasExo) (filterCmds [(n, true), (n, false)]) = SkipState.init hasExo := by
+  cases hasExo <;> cases n <;> decide
+
+/-! ### Configuration changed after construction; the exogenous model addressed directly -/
+
+/-- Attaching an exogenous model to a filter on which no part of the prediction is skipped gives
+    exactly the freshly built filter with such a model; in general it keeps every other flag. -/
+theorem attach_unskipped (st : SkipState) (hs : st.state = false) (hi : Inv st) :
+    Inv (attachExo st) ∧ (attachExo st).pred = false ∧
+    (st.corr = false → attachExo st = SkipState.init true) := by
+  obtain ⟨p, s, e, c⟩ := st
+  simp only at hs
+  subst hs
+  cases p <;> cases c <;> rcases e with _ | (_ | _) <;> first | decide | (revert hi; decide)
+
+/-- While the prediction is skipped an attachment leaves the aggregate flag stale (the reported
+    state says "skipped" although the new exogenous model is not) — `predict` stays the identity,
+    as the last command asked; -/
+theorem attach_while_skipped_stale :
+    let st := attachExo (filterSkip (SkipState.init false) .prediction true).st
+    ¬ Inv st ∧ st.pred = true ∧ st.exo = some false ∧ ∀ k, predObs k st = .identity := by
+  refine ⟨by decide, by decide, by decide, fun k => ?_⟩
+  cases k <;> decide
+
+/-- … and the next command naming 'prediction', 'state', 'exogenous' or 'all' (on or off, at
+    filter or prediction level) recomputes it: nothing is latched at construction. -/
+theorem attach_resync (st : SkipState) (n : StepName) (on : Bool)
+    (hn : n = .prediction ∨ n = .state ∨ n = .exogenous ∨ n = .all) :
+    Inv (filterSkip (attachExo st) n on).st ∧ (filterSkip (attachExo st) n on).out = .ret true ∧
+    (n = .all → on = false → (filterSkip (attachExo st) n on).st = SkipState.init true) := by
+  obtain ⟨p, s, e, c⟩ := st
+  rcases hn with h | h | h | h <;> subst h <;>
+    cases on <;> cases p <;> cases s <;> cases c <;> rcases e with _ | (_ | _) <;> decide
+
+/-- `exogenous_model().skip(name, on)` called directly: throws (nothing written) without a model;
+    with one, only the exact name 'exogenous' is understood — every other name, the filter's
+    own names included, returns `false` and changes nothing. -/
+theorem exo_model_level_skip (st : SkipState) (n : StepName) (on : Bool) :
+    (st.hasExo = false → exoModelSkip st n on = ⟨st, .thrown⟩) ∧
+    (st.hasExo = true → n ≠ .exogenous → exoModelSkip st n on = ⟨st, .ret false⟩) ∧
+    (st.hasExo = true → n = .exogenous → exoModelSkip st n on = ⟨{ st with exo := some on }, .ret true⟩) := by
+  obtain ⟨p, s, e, c⟩ := st
+  cases n <;> cases on <;> cases p <;> cases s <;> cases c <;> rcases e with _ | (_ | _) <;> decide
+
 /-! ### Non-vacuity -/
 
 /-- a history ending with everything off after partial and full skips, with an exogenous model -/
@@ -205,5 +347,28 @@ example : predObs .draw (run (SkipState.init true) [⟨.stateModel, .state, true
     = .step .copy := by decide
 
 example : predObs .draw (run (SkipState.init false) [⟨.stateModel, .state, true⟩]) = .step .untouched := by decide
+
+/-- the hypotheses of `skip_history_identity` are met by a history that mixes names and
+    contains a step that really ran -/
+example : let r := Spec.runOps traceSem .kf ⟨Spec.init true, [], 0⟩
+                     [.cmd .state true, .cmd .exogenous false, .cmd .state false, .predict, .cmd .state true,
+                      .cmd .exogenous true, .cmd .correction true]
+          r.spec.predSkipped = true ∧ r.spec.corr = true ∧ r.belief = ["fxexo"] := by
+  decide
+
+/-- the identity theorem is not vacuous: three steps and a hand-over under 'all', belief unchanged,
+    while the same steps on the never-skipped filter do change it -/
+example : (runOps traceSem .kf ⟨SkipState.init true, [], 0⟩
+            ([SOp.cmd .all true, .predict, .correct, .handOver, .predict].map SOp.toOp)).belief = [] ∧
+          (runOps traceSem .kf ⟨SkipState.init true, [], 0⟩
+            ([SOp.predict, .correct, .handOver, .predict].map SOp.toOp)).belief = ["fxexo", "full", "fxexo"] := by
+  decide
+
+/-- a block that nets to nothing without being an on/off pair of one name -/
+example : (Spec.init true).run [(.all, true), (.state, false), (.correction, false), (.exogenous, false)] = Spec.init true := by
+  decide
+
+/-- the exogenous model addressed directly breaks the invariant (hence `Cmd.viaSteps` excludes it) -/
+example : ¬ Inv (run (SkipState.init true) [⟨.filter, .state, true⟩, ⟨.exoModel, .exogenous, true⟩]) := by decide
 
 end BFL
